@@ -29,9 +29,10 @@ def _one(args):
     lose = args[4] if len(args) > 4 else 0
     slow = tuple(args[5]) if len(args) > 5 and args[5] else None
     mode = args[6] if len(args) > 6 else "serial"
+    lose_idle = args[7] if len(args) > 7 else 0
     return serial_rec.run_direct([bytes(s) for s in stmts], [bytes(a) for a in acks],
                                  status={int(k): [bytes(x) for x in v] for k, v in status.items()}, late_hs=late, lose_at=lose,
-                                 slow=slow, mode=mode)
+                                 slow=slow, mode=mode, lose_idle_after=lose_idle)
 
 
 def run_all(specs, par=12):
@@ -43,18 +44,18 @@ def enc(spec):
     return {"stmts": [list(s) for s in stmts], "acks": [list(a) for a in acks],
             "status": {str(k): [list(x) for x in v] for k, v in status.items()}, "late": late,
             "lose": spec[4] if len(spec) > 4 else 0, "slow": list(spec[5]) if len(spec) > 5 and spec[5] else None,
-            "mode": spec[6] if len(spec) > 6 else "serial"}
+            "mode": spec[6] if len(spec) > 6 else "serial", "lose_idle": spec[7] if len(spec) > 7 else 0}
 
 
 def dec(d):
     return ([bytes(s) for s in d["stmts"]], [bytes(a) for a in d["acks"]],
-            {int(k): [bytes(x) for x in v] for k, v in d["status"].items()}, d["late"], d.get("lose", 0), d.get("slow"), d.get("mode", "serial"))
+            {int(k): [bytes(x) for x in v] for k, v in d["status"].items()}, d["late"], d.get("lose", 0), d.get("slow"), d.get("mode", "serial"), d.get("lose_idle", 0))
 
 
 def project(trace, spec):
     """A recorded execution in DirectWriteImpl's vocabulary (None if it is outside the model: loss, slow, stuck, ...)."""
     stmts, acks, status, late = spec[:4]
-    if (len(spec) > 4 and spec[4]) or (len(spec) > 5 and spec[5]):
+    if (len(spec) > 4 and spec[4]) or (len(spec) > 5 and spec[5]) or (len(spec) > 7 and spec[7]):
         return None
     if any(len(v) != 1 for v in status.values()):
         return None
@@ -220,7 +221,13 @@ class P(flow.Plan):
             slow = (rng.randint(1, k), 0.25, 0.6) if i % 7 == 2 and not lose else None
             # every third scenario goes through a SocketWriter (TCP: no line numbers; replies arrive in two fragments)
             mode = "socket" if i % 3 == 1 else "serial"
-            specs.append((stmts, acks, status, rng.random() < 0.15 and not lose and not slow, lose if mode == "serial" else 0, slow, mode))
+            # connection loss at another position: while nothing is in flight (after statement `idle` returned); every later
+            # write() must raise, and return
+            idle = rng.randint(1, k - 1) if i % 10 == 7 and k >= 2 and not lose and not slow else 0
+            if idle:
+                acks = [b"ok\n"] * k
+            specs.append((stmts, acks, status, rng.random() < 0.15 and not lose and not slow and not idle,
+                          lose if mode == "serial" else 0, slow, mode, idle))
         traces = run_all(specs)
         for t in traces:
             t["meta"]["driver"] = "random"
